@@ -48,6 +48,12 @@ CHECKS = {
    design_ref="DESIGN.md section 4 C10, section 2 E1",
    note="Precondition = documented domain (finite inputs, no overflow in intermediates, |x|>=|y| for Fast2Sum, error term representable for squares). NOT claimed (attempted, reported as best-effort): float32 2Sum (last addition) and every two-operand Dekker product (mul_dekker, multiply_dekker, two_prod: solver budget exhausted even at float16; thorough tier only), all of float64. The make_api dispatch wrapper runs for real; mp_ctx paths not taken.",
    technique="contract-based deductive verification: real functions on symbolic floats, per-operation exactness VCs in QF_FP (z3/cvc5) + postcondition as ring identity over the proved-exact operations"),
+ "C15": dict(
+   category="proof",
+   text="The real utils.mpf2float code object runs on a symbolic mpf for float16/32/64, both signs, flush on/off: on every feasible path the result is exactly the p-bit rounded value when that is a normal number (spec written from the IEEE encoding), signed infinity from 2^(emax+1), signed zero below half the smallest subnormal (and for every subnormal value when flushing), never NaN, sign preserved; _normalize is called with the target precision and round-to-nearest. The flush_subnormals option (unspecified/False/True) reaches mpf2float as False/False/True and the working precision is prec + int(prec*multiplier) + extra_prec (finite-case runs of the real methods).",
+   design_ref="DESIGN.md section 4 C15",
+   note="ASSUMED: mpmath's _normalize contract (round to prec bits, ties to even, odd mantissa, bc = bit_length) - only consequences are used; E2 models dtype(int) and numpy.ldexp (bit-vector encoder, cross-checked against NumPy). Not under contract: evaluation of the user function inside mpmath and its double rounding; subnormal results (the statement only requires normal results to be nearest).",
+   technique="contract-based deductive verification: symbolic execution of the real code object with the mpmath callee replaced by its contract; per-path VCs in QF_BV/FP (z3); finite-case option plumbing"),
 }
 NA_PENDING = "check not built yet in this session (planned, see DESIGN.md section 4)"
 NA = {
@@ -79,7 +85,7 @@ def main():
       "engines": [
         {"name": "E0 core", "path": "vf/core.py", "serves_properties": sorted(CHECKS), "kind_free_text": "obligation pool, z3/cvc5 portfolio, verdict protocol, evidence/replay writer"},
         {"name": "E1 symfp", "path": "vf/symfp.py", "serves_properties": ["C10"], "kind_free_text": "operation log + rounding-mode-agreement exactness queries + ring identity over exact operations"},
-        {"name": "E2 symrun", "path": "vf/symrun.py", "serves_properties": ["C07", "C14", "C18", "C19"], "kind_free_text": "runs real code objects on symbolic NumPy scalars / ints with shadowed builtins; decision-prefix path forking; per-path VCs"},
+        {"name": "E2 symrun", "path": "vf/symrun.py", "serves_properties": ["C07", "C14", "C15", "C18", "C19"], "kind_free_text": "runs real code objects on symbolic NumPy scalars / ints with shadowed builtins; decision-prefix path forking; per-path VCs"},
         {"name": "E3 symexpr", "path": "vf/symexpr.py", "serves_properties": ["C04"], "kind_free_text": "abstract expressions with holes: lazy shape refinement, aliasing, key-order and inference-knowledge forks over the real Rewriter/Expr code; vf/denote.py semantics; vf/witness.py native replay"},
         {"name": "E4 ring", "path": "vf/ring.py", "serves_properties": ["C16"], "kind_free_text": "canonical-form polynomial/rational-function arithmetic with path forking on zero tests"},
       ],
